@@ -18,6 +18,8 @@ type Profile struct {
 	Templates []Template
 	TplProb   float64 // probability that a history starts with a template
 	NoiseProb float64 // probability of a noise action between template steps
+	Extra     func(s *Sim) *Action // check-specific action source (may return nil)
+	ExtraProb float64
 }
 
 // Template produces a directed script for the current sim (may return nil if not applicable).
@@ -134,6 +136,11 @@ var rawBodies = []string{`{`, `{"email":1,"password":true}`, `["a"]`, `null`, `e
 // Next draws the next random-walk action.
 func (p *Profile) Next(s *Sim) *Action {
 	r := s.R
+	if p.Extra != nil && r.Float64() < p.ExtraProb {
+		if a := p.Extra(s); a != nil {
+			return a
+		}
+	}
 	var kinds []string
 	for k, w := range p.W {
 		if w > 0 && s.Enabled(k) {
